@@ -48,7 +48,7 @@ theorem C05_parse_error_raised (cx : Ctx) (n i : Nat) (a : AMode) (m : RMode) (e
 /-- …and for a foreign exception thrown by the action of rule `k`. -/
 theorem C05_foreign (cx : Ctx) (n i : Nat) (a : AMode) (m : RMode) (env : Env) (st : St) (r : Ret)
     (k : Nat) (s : Bool) (h : run cx n i a m env st = some r) (hx : r.res = .thr (.foreign k s)) :
-    ∃ e ∈ r.raw, (∃ b c, e = Ev.apply k b c) ∨ (∃ c, e = Ev.apply0 k c) := C05_origin cx n i a m env st r _ h hx
+    ∃ e ∈ r.raw, (∃ sd b c, e = Ev.apply k sd b c) ∨ (∃ sd c, e = Ev.apply0 k sd c) := C05_origin cx n i a m env st r _ h hx
 
 /-- Byte, line and column of a parse_error are mutually consistent: together they are the
     position a scan of some consumed prefix yields. -/
